@@ -249,6 +249,37 @@ CHECKS = {
     },
 }
 
+# clauses added after the bug-hunt round (DESIGN.md §6a, §10)
+_MORE = {
+    'C02': ' Added after the bug-hunt round: a float handed to the JSON writer has been clamped and NaN-tested; the loaded '
+           'evaluation stack is filled through push_evaluation_stack; the equal-to-default elision compares list origins; '
+           'write_ink_list does not read the resolved-origins cache.',
+    'C04': ' Added after the bug-hunt round: a source rule over the whole runtime - no unwrap of a value that derives from one '
+           'of 13 accessors whose None the story decides (non-container path, empty path, unnamed container, extreme of an '
+           'empty list, divert without target, ...) unless tested, guarded by the repository\'s predicate for that source on '
+           'the same receiver, or tabled; Divert::get_target_pointer does not follow an approximate resolution and a null '
+           'divert target reaches an Err before any call-stack push.',
+    'C06': ' Added after the bug-hunt round: the validator pass that checks calls and divert-target values has an arm for '
+           'every Node variant carrying expressions or node lists, for Expression::DivertTarget, for the initial values of '
+           'globals and for the three text fields of a choice line the emitter tokenises later; every call-graph cycle among '
+           'the text-consuming functions passes a nesting guard, marker levels and weave length are limited, and the depth '
+           'of the story is measured before it is serialised (a story deeper than the runtime loads is never returned).',
+    'C07': ' Added after the bug-hunt round: the raw field InkList::initial_origin_names is read only by its getter, setter, '
+           'plain constructors and Clone (copies and sub-ranges go through get_origin_names), and the assignment helper '
+           'keeps the new value\'s origin when the old value has none.',
+    'C08': ' Added after the bug-hunt round: every public method with a write effect on the story carries the refusal guard '
+           'or is one of four tabled exceptions (cont, continue_async, two setters).',
+    'C09': ' Added after the bug-hunt round: error exits include tail calls; the binding-validation flag, written before a '
+           'continue can be refused, is cleared by every function that removes a binding or assigns the fallback setting; '
+           'the index of a generated choice is assigned before it is pushed (the public accessor only rewrites the same value).',
+    'C15': ' Added after the bug-hunt round: the document-decided-optionals source rule (see C04) over the whole runtime.',
+    'C16': ' Added after the bug-hunt round: apart from the run itself evaluate_function changes the story only through the '
+           'paired steps; the previous pointer is restored from the value read before the frame was pushed; external bindings '
+           'are validated and a pending error is refused before the first change.',
+}
+for _k, _v in _MORE.items():
+    CHECKS[_k]['text'] += _v
+
 NOT_APPLICABLE = {
     'C05': 'agreement with the reference compiler on the corpus is a relation between two outputs over 121 inputs and '
            'all choice paths; no clause of it is visible in the shape of the code, deciding it means running compiler and runtime',
